@@ -65,6 +65,15 @@ type NDNLPLinkService struct {
 
 	// Receive
 	partialMessageStore map[uint64][][]byte
+	// The store is bounded (a peer that never completes its messages must not
+	// exhaust the forwarder): partialMessageOrder lists the stored messages,
+	// oldest first, by base sequence and generation (a base sequence can be
+	// used again after its message was completed or evicted);
+	// partialMessageSlots is the number of fragment slots the stored messages hold
+	partialMessageOrder []partialMessageRef
+	partialMessageGen   map[uint64]uint64
+	partialMessageSlots int
+	nextPartialGen      uint64
 
 	// Send
 	nextSequence             uint64
@@ -85,6 +94,7 @@ func MakeNDNLPLinkService(transport transport, options NDNLPLinkServiceOptions) 
 	l.computeHeaderOverhead()
 
 	l.partialMessageStore = make(map[uint64][][]byte)
+	l.partialMessageGen = make(map[uint64]uint64)
 	l.nextSequence = 0
 	l.nextTxSequence = 0
 	l.congestionCheck = 0
@@ -421,6 +431,11 @@ func (l *NDNLPLinkService) reassemblePacket(
 	if !hasSequence {
 		// Create map entry
 		l.partialMessageStore[baseSequence] = make([][]byte, fragCount)
+		l.nextPartialGen++
+		l.partialMessageGen[baseSequence] = l.nextPartialGen
+		l.partialMessageOrder = append(l.partialMessageOrder, partialMessageRef{baseSequence, l.nextPartialGen})
+		l.partialMessageSlots += int(fragCount)
+		l.evictPartialMessages(baseSequence)
 	} else if uint64(len(partial)) != fragCount {
 		core.LogWarn(l, "Received NDNLPv2 fragment whose count disagrees with earlier fragments - DROP")
 		return nil
@@ -450,11 +465,59 @@ func (l *NDNLPLinkService) reassemblePacket(
 			reassembled[i] = fragment
 		}
 
-		delete(l.partialMessageStore, baseSequence)
+		l.dropPartialMessage(baseSequence)
 		return reassembled
 	}
 
 	return nil
+}
+
+// partialMessageRef identifies one stored partial message.
+type partialMessageRef struct {
+	baseSequence uint64
+	gen          uint64
+}
+
+// Bounds of the partial message store of one face: the number of messages and
+// the number of fragment slots they hold (a message of the maximum packet size
+// has about 70 fragments on the smallest MTU).
+const (
+	maxPartialMessages     = 256
+	maxPartialMessageSlots = 4096
+)
+
+// dropPartialMessage removes a message from the partial message store.
+func (l *NDNLPLinkService) dropPartialMessage(baseSequence uint64) {
+	l.partialMessageSlots -= len(l.partialMessageStore[baseSequence])
+	delete(l.partialMessageStore, baseSequence)
+	delete(l.partialMessageGen, baseSequence)
+}
+
+// evictPartialMessages drops the oldest partial messages (never the one with
+// base sequence keep, which is being received) until the store is within its bounds.
+func (l *NDNLPLinkService) evictPartialMessages(keep uint64) {
+	for len(l.partialMessageOrder) > 0 &&
+		(len(l.partialMessageStore) > maxPartialMessages || l.partialMessageSlots > maxPartialMessageSlots) {
+		oldest := l.partialMessageOrder[0]
+		if oldest.baseSequence == keep && l.partialMessageGen[keep] == oldest.gen {
+			break // only the message being received is left
+		}
+		l.partialMessageOrder = l.partialMessageOrder[1:]
+		if l.partialMessageGen[oldest.baseSequence] == oldest.gen {
+			core.LogDebug(l, "Partial message store full - dropping incomplete message with base sequence ", oldest.baseSequence)
+			l.dropPartialMessage(oldest.baseSequence)
+		}
+	}
+	// References to messages that were completed meanwhile are forgotten
+	if len(l.partialMessageOrder) > 2*len(l.partialMessageStore)+16 {
+		live := l.partialMessageOrder[:0]
+		for _, ref := range l.partialMessageOrder {
+			if l.partialMessageGen[ref.baseSequence] == ref.gen {
+				live = append(live, ref)
+			}
+		}
+		l.partialMessageOrder = live
+	}
 }
 
 func (op *NDNLPLinkServiceOptions) Flags() (ret uint64) {
